@@ -3,7 +3,9 @@ package rules
 import (
 	"go/ast"
 	"go/constant"
+	"go/token"
 	"go/types"
+	"strings"
 
 	"gnetlint/core"
 	"gnetlint/flow"
@@ -109,4 +111,108 @@ func runC16_5(c *core.Ctx) {
 	if sites == 0 {
 		c.Undecided(f.Name, "url.Parse", f.Decl.Pos(), "parseProtoAddr no longer calls url.Parse: idiom not recognised")
 	}
+}
+
+func init() {
+	register(&core.Rule{ID: "C16.6", Prop: "C16", MinSites: 4,
+		Desc: "verdicts sit on the edges that justify them: parseProtoAddr succeeds only where the endpoint is established non-empty (u.Host != \"\" and u.Path == \"\" for tcp/udp, the joined path != \"\" for unix) and returns ErrInvalidNetworkAddress only on an empty-scheme, empty-endpoint or stray-path edge",
+		Run: runC16_6})
+}
+
+func runC16_6(c *core.Ctx) {
+	f := getFn(c, "", "parseProtoAddr")
+	invalid := sentinel(c, "ErrInvalidNetworkAddress")
+	if f == nil || !c.Need("ErrInvalidNetworkAddress", invalid) {
+		return
+	}
+	const (
+		fBad = 1 << iota
+		fHostOK
+		fPathOK
+		fJoinedOK
+		fParsed
+	)
+	isEmptyStr := func(e ast.Expr) bool {
+		tv, ok := f.Info.Types[e]
+		return ok && tv.Value != nil && tv.Value.Kind() == constant.String && constant.StringVal(tv.Value) == ""
+	}
+	selName := func(e ast.Expr) string {
+		if sel, ok := ast.Unparen(e).(*ast.SelectorExpr); ok {
+			if t := f.Info.TypeOf(sel.X); t != nil && strings.HasSuffix(t.String(), "net/url.URL") {
+				return sel.Sel.Name
+			}
+		}
+		return ""
+	}
+	p := &flow.Problem{Must: true}
+	p.Edge = func(e *flow.Edge, in uint64) uint64 {
+		if e.Cond == nil {
+			return in
+		}
+		if e.Tag != nil {
+			if selName(e.Tag) == "Scheme" && isEmptyStr(e.Cond) && e.Sense {
+				in |= fBad
+			}
+			return in
+		}
+		x, y, op, ok := flow.Cmp(e.Cond)
+		if !ok || (op != token.EQL && op != token.NEQ) || !isEmptyStr(y) {
+			return in
+		}
+		empty := (op == token.EQL) == e.Sense
+		switch name := selName(x); {
+		case name == "Host":
+			if empty {
+				in |= fBad
+			} else {
+				in |= fHostOK
+			}
+		case name == "Path":
+			if empty {
+				in |= fPathOK
+			} else {
+				in |= fBad
+			}
+		case name == "":
+			if v, ok := flow.ObjOf(f.Info, x).(*types.Var); ok && !v.IsField() {
+				if b, ok := v.Type().Underlying().(*types.Basic); ok && b.Info()&types.IsString != 0 {
+					if empty {
+						in |= fBad
+					} else {
+						in |= fJoinedOK
+					}
+				}
+			}
+		}
+		return in
+	}
+	p.Node = func(b *flow.Block, i int, n ast.Node, in uint64) uint64 {
+		for _, call := range flow.Calls(n) {
+			if flow.IsPkgFunc(f.Info, call, "net/url", "Parse") {
+				in |= fParsed
+			}
+		}
+		return in
+	}
+	sol := f.Graph().Solve(p)
+	k := 0
+	sol.AtExit(func(b *flow.Block, facts uint64) {
+		r := b.Return
+		if len(r.Results) != 3 {
+			return
+		}
+		k++
+		switch {
+		case flow.IsNil(f.Info, r.Results[2]):
+			okk := (facts&fHostOK != 0 && facts&fPathOK != 0) || facts&fJoinedOK != 0
+			c.Check(okk, f.Name, "success #"+itoa(k)+" only for a non-empty endpoint", r.Pos(), "endpoint established non-empty",
+				"parseProtoAddr returns a scheme and an endpoint on a path where the endpoint is not established non-empty (tcp/udp: host present and no path; unix: joined path present): `tcp://` or `unix://` would be accepted with an empty address")
+		default:
+			if id := sentinelIdent(r.Results[2]); id != nil && f.Info.Uses[id] == invalid && facts&fParsed != 0 {
+				// (a rejection before url.Parse decides on the raw string by its own means)
+				c.Check(facts&fBad != 0, f.Name, "ErrInvalidNetworkAddress #"+itoa(k)+" only for an empty endpoint", r.Pos(), "returned on an empty-scheme / empty-endpoint / stray-path edge",
+					"parseProtoAddr reports ErrInvalidNetworkAddress where no emptiness was established: well-formed addresses are rejected")
+			}
+		}
+	})
 }
